@@ -1,6 +1,7 @@
 import Resolvo.Oracles
 import Resolvo.Enc.ReferenceProofs
 import Resolvo.MDet.AsyncProofs
+import Resolvo.MDet.AsyncInv
 /-!
 # C10 / C11 — asynchronous metadata requests
 
@@ -13,6 +14,8 @@ order, provider call log (request start `c`/`d`, answer obtained `C`/`D`, cancel
 (`pending <set>` at every quiescent point, `complete <label>`) and the complete solver history.
 
 **Proved here (about the model, for all universes, states and schedules).**
+* C11, run level: `quiescent_every_future_started` — in every reachable state of the encoder loop, an empty ready
+  queue means every pushed future has been started (`asyncStep_inv`: one step preserves the loop invariant);
 * C11, one future: `req_future_starts_every_version_set` — one poll of the future of a requirement starts *every*
   version set of it (finished, request issued, or listening to a request in flight): requests are never issued one
   after the other's answer;
@@ -40,6 +43,26 @@ theorem req_future_starts_every_version_set (U : Universe) (P : Problem) (t : AT
     (h : runM (pollTask U P t a) s = (.ok (t', a', res), s')) :
     t'.children.map (·.vs) = t.children.map (·.vs) ∧ ∀ c ∈ t'.children, c.started :=
   pollTask_req_started U P t sid r a s s' t' a' res ht h
+
+/-- C11 (run level, model): in every state the encoder loop can reach — any universe, problem, solver state and
+    completion order — an empty ready queue (the executor is about to see `Pending`) means every future pushed so far
+    has been started: request outstanding, listening to one in flight, or parked on a filter/sort gate. With
+    `req_future_starts_every_version_set` this covers every version set of every requirement known so far. -/
+theorem quiescent_every_future_started {U : Universe} {P : Problem} {a : AS} {s : S} (h : Reach U P a s)
+    (hq : a.ready = []) : ∀ t ∈ a.tasks, t.started := reach_quiescent_all_started h hq
+
+/-- a universe with two packages and a root that requires both -/
+def exU : Universe :=
+  { pkgs := [(0, { cands := [0] }), (1, { cands := [1] })],
+    solvs := [(0, ⟨0, 0, Deps.known [] []⟩), (1, ⟨1, 0, Deps.known [] []⟩)],
+    vsets := [(0, ⟨0, [0]⟩), (1, ⟨1, [1]⟩)] }
+def exP : Problem := { reqs := [.single 0, .single 1] }
+
+/-- non-vacuity, and the scenario of the property itself: three steps of the model's encoder loop on a root with
+    two requirements on distinct packages reach a state in which **both** `get_candidates` requests are outstanding
+    (and the two requirement futures are next in the ready queue) — nothing has been answered yet -/
+example : ∃ a s, Reach exU exP a s ∧ a.gates.map (·.1) = ["c0", "c1"] ∧ a.ready = [3, 4] ∧ s.fetchedCands = [] :=
+  ⟨_, _, .step (.step (.step (.start { queue := [.deps none], asyncMode := true }) rfl) rfl) rfl, rfl, rfl, rfl⟩
 
 /-- C10 (one await) -/
 theorem request_guard (U : Universe) (tid n : Nat) (a : AS) (s s' : S) (a' : AS)
